@@ -88,6 +88,14 @@ theorem gen_eq_model_transitions (z : Zone) (year : Int) (hz : z.hasdst = true â
     Gen.tzrange_transitions z year = TzStr.transitions z year :=
   tzrange_transitions_eq z year hz
 
+/-- `tzstr.__init__`: the GMT/UTC sign flip, the base-class constructor called with `start=False, end=False`, `_delta`
+    for both rules, the falsy-start-delta corner and `hasdst`; `parser._parsetz` is the model's parser.  `hres`: the
+    parse result's rules with a weekday have a week (see `gen_eq_model_tzstr_delta`). -/
+theorem gen_eq_model_tzstr_init (s : String) (posix : Bool)
+    (hres : âˆ€ res, TzStr.parse s = .ok (some res) â†’ WkOk res.start âˆ§ WkOk res.Â«endÂ») :
+    (Gen.tzstr_init s posix).map zoneOf = TzStr.tzstr s posix :=
+  tzstr_init_eq s posix hres
+
 /-- `tzrange.__eq__` -/
 theorem gen_eq_model_zone_eq (a b : Zone) : Gen.tzrange_eq a b = .ok (zoneEq a b) := tzrange_eq_eq a b
 
